@@ -36,11 +36,27 @@ def node(e):
             return {"t": "leaf", "data": arr.tolist(), "chunks": ch[0], "nc": ch}
     elif name == "Elemwise" and ch is not None and len(ch) == 1:
         args = list(e.elemwise_args)
-        if e.where is True and all(isinstance(a, Expr) for a in args):
-            if e.op in (operator.neg, np.negative) and len(args) == 1:
-                return {"t": "neg", "a": node(args[0]), "nc": ch}
-            if e.op in (operator.add, np.add) and len(args) == 2:
-                return {"t": "add", "a": node(args[0]), "b": node(args[1]), "nc": ch}
+        UN = {operator.neg: "neg", np.negative: "neg", operator.abs: "abs", np.absolute: "abs", np.abs: "abs", np.square: "square"}
+        BIN = {operator.add: "add", np.add: "add", operator.sub: "sub", np.subtract: "sub", operator.mul: "mul",
+               np.multiply: "mul", np.maximum: "max"}
+        try:
+            un, bn = UN.get(e.op), BIN.get(e.op)
+        except TypeError:
+            un = bn = None
+        if e.where is True:
+            if un and len(args) == 1 and isinstance(args[0], Expr):
+                return {"t": "un", "op": un, "a": node(args[0]), "nc": ch}
+            if bn and len(args) == 2 and all(isinstance(a, Expr) for a in args):
+                b = args[1]
+                if type(b).__name__ == "FromArray" and b.ndim == 0:
+                    # the ufunc wrappers turn a Python scalar into a 0-d array
+                    sv = np.asarray(b.operand("array"))
+                    if sv.dtype.kind in "iu":
+                        return {"t": "bins", "op": bn, "a": node(args[0]), "s": int(sv), "nc": ch}
+                return {"t": "bin", "op": bn, "a": node(args[0]), "b": node(args[1]), "nc": ch}
+            if bn and len(args) == 2 and isinstance(args[0], Expr) and isinstance(args[1], (int, np.integer)) \
+                    and not isinstance(args[1], bool):
+                return {"t": "bins", "op": bn, "a": node(args[0]), "s": int(args[1]), "nc": ch}
     elif name == "SliceSlicesIntegers" and ch is not None and len(ch) == 1:
         ix = e.operand("index")
         if len(ix) == 1 and isinstance(ix[0], slice) and ix[0].step in (None, 1):
